@@ -36,6 +36,7 @@ import (
 	"github.com/golang/protobuf/ptypes/empty"
 	"github.com/massnetorg/mass-core/blockchain"
 	"github.com/massnetorg/mass-core/blockchain/state"
+	"github.com/massnetorg/mass-core/logging"
 	"github.com/massnetorg/mass-core/massutil"
 	"github.com/massnetorg/mass-core/netsync"
 	"github.com/massnetorg/mass-core/trie/rawdb"
@@ -76,6 +77,9 @@ type apiExec struct {
 }
 
 func (x *apiExec) env() *WEnv {
+	if d := os.Getenv("VERIF_LOGDIR"); d != "" && x.e == nil {
+		logging.Init(d, "verif-api", "debug", 1, false) // debugging aid: the wallet's own log
+	}
 	if x.e == nil {
 		x.e = NewWEnv()
 		x.fresh()
@@ -308,15 +312,36 @@ var apiArity = map[string]int{
 
 // deepClasses: outcomes that depend on coin selection, fee estimation, dust limits or the script engine;
 // the model does not predict which of them occurs (token `deep`).
-var deepClasses = map[string]map[string]bool{
-	"CreateRawTransaction":            {"ok": true, "e1524": true, "e1522": true, "e1523": true, "e1110": true, "e1503": true},
-	"AutoCreateTransaction":           {"ok": true, "e1304": true, "e1109": true, "e1110": true, "e1301": true},
-	"CreateStakingTransaction":        {"ok": true, "e1304": true, "e1109": true, "e1110": true, "e1301": true},
-	"CreateBindingTransaction":        {"ok": true, "e1304": true, "e1109": true, "e1110": true, "e1301": true},
-	"CreatePoolPkCoinbaseTransaction": {"ok": true, "e1304": true, "e1109": true, "e1110": true, "e1301": true},
-	"GetTransactionFee":               {"ok": true, "e1304": true, "e1109": true, "e1301": true},
-	"SignRawTransaction":              {"ok": true, "e1106": true, "e1507": true, "e1701": true},
-}
+var deepClasses = func() map[string]map[string]bool {
+	t := map[string]string{
+		"CreateRawTransaction":            "ok e1524 e1522 e1523 e1110 e1521 e1504 e1703",
+		"AutoCreateTransaction":           "ok e1304 e1109 e1110 e1301 e1703 e1503 e1504 e1501",
+		"CreateStakingTransaction":        "ok e1304 e1109 e1110 e1301 e1703 e1503 e1504 e1501",
+		"CreateBindingTransaction":        "ok e1304 e1109 e1110 e1301 e1703 e1503 e1504 e1501",
+		"CreatePoolPkCoinbaseTransaction": "ok e1304 e1109 e1110 e1301 e1703 e1503 e1504 e1501",
+		"GetTransactionFee":               "ok e1304 e1109 e1301 e1503",
+		"SignRawTransaction":              "ok e1106 e1507 e1701",
+		"DecodeRawTransaction":            "ok e1102",
+		"TxHistory":                       "ok e1702",
+		"GetTxStatus":                     "ok e1702",
+		"GetRawTransaction":               "ok e1101 e1102 e1202",
+		"GetStakingHistory":               "ok e1105",
+		"GetBindingHistory":               "ok e1702 e1703",
+		"GetNetworkBinding":               "ok e1702",
+		"CheckPoolPkCoinbase":             "ok e1702",
+		"CheckTargetBinding":              "ok e1702 e1703",
+		"GetClientStatus":                 "ok",
+		"SendRawTransaction":              "node",
+	}
+	m := map[string]map[string]bool{}
+	for k, v := range t {
+		m[k] = map[string]bool{}
+		for _, c := range strings.Fields(v) {
+			m[k][c] = true
+		}
+	}
+	return m
+}()
 
 func classOf(err error) string {
 	if err == nil {
